@@ -188,6 +188,7 @@ def run(ctx, chk):
     chk.rule("C19.R3", "no observable iteration over a hash container", floor=1)
     chk.rule("C19.R4", "no clock / RNG / environment / address in any local function", floor=2)
     chk.rule("C19.R5", "a new machine is all zero except FLAGS=F000h and CS=FFFFh", floor=15)
+    chk.rule("C19.R6", "assembler actions leave their bookkeeping (nesting set, source lock) as they found it on every path, error paths included", floor=3)
     chk.assumptions += [
         "std (printing, HashMap with a fixed key set, String) is deterministic apart from hash iteration order",
         "the generated LR drivers (not dumped as MIR) are covered by the type facts of R1/R2: they are safe code without statics",
@@ -380,3 +381,61 @@ def run(ctx, chk):
                 chk.ok("C19.R5", "VM::default", "delegates to VM::new")
             else:
                 chk.violation("C19.R5", "VM::default", "not-new", f"Default for VM calls {cs} instead of VM::new", dflt["span"])
+    residual_state_rule(ctx, chk)
+
+
+def residual_state_rule(ctx, chk):
+    """R6: pairing on every action path of the assembler (engine A).  Two pieces of the Context are scratch state of one
+    macro expansion: the set of macro names being expanded and the source-position lock.  They are not reset by
+    Context::clear (checked: if clear resets a field, imbalance of that field is harmless and not reported), so an action
+    path -- in particular one that ends in a diagnostic -- that inserts without removing, or locks without unlocking,
+    changes what the same objects answer for the next source."""
+    from asm import GramEval
+    from rules_c13 import guard_events
+    GA = ctx.gram("preprocessor")
+    E = GramEval(GA)
+    # which scratch fields does Context::clear / SourceMapper::clear reset?
+    cleared = set()
+    for h in GA.g.get("helpers") or []:
+        if h["name"] == "clear" and h.get("self_ty") in ("Context", "SourceMapper"):
+            txt = __import__("json").dumps(h["body"])
+            if "macro_nesting_counter" in txt:
+                cleared.add("nesting")
+            if h.get("self_ty") == "SourceMapper" and '"lock"' in txt:
+                cleared.add("lock-on-mapper-clear")
+    ctx_clear = next((h for h in GA.g.get("helpers") or [] if h["name"] == "clear" and h.get("self_ty") == "Context"), None)
+    mapper_reset = ctx_clear is not None and "mapper" in __import__("json").dumps(ctx_clear["body"]) and "lock-on-mapper-clear" in cleared
+    n_paths = 0
+    for nt_data in GA.g["nonterminals"]:
+        nt = nt_data["name"]
+        for k, pr in enumerate(nt_data["productions"]):
+            ua = GA.main_user_action(pr["action"])
+            if ua["kind"] != "user":
+                continue
+            label = GA.prod_label(nt, k)
+            where = f"{GA.g['file']}:{pr['line']}"
+            touched = False
+            for q in E.prod_paths(nt, k):
+                if getattr(q, "action", None) != ua["idx"]:
+                    continue
+                g = guard_events(q)
+                ins = [i for i, real in g["inserts"] if real]
+                rem = g["removes"]
+                locks = [e.op for e in q.effects if e.kind == "mapper" and e.op in ("lock_source", "unlock_source")]
+                if not (g["inserts"] or rem or locks):
+                    continue
+                touched = True
+                n_paths += 1
+                kind = "error" if any(e.kind == "error" for e in q.effects) else "ok"
+                if len(ins) != len(rem) and "nesting" not in cleared:
+                    chk.violation("C19.R6", label, f"nesting-set-unbalanced:{kind}-path",
+                                  f"{label}: a path ending in {'a diagnostic' if kind == 'error' else 'success'} inserts {len(ins)} name(s) into the set of macros being expanded and removes {len(rem)}: "
+                                  "the name stays behind (Context::clear does not reset the set), so the same objects later reject a valid source as recursive / too deeply nested", where,
+                                  witness="conditions of the path: " + "; ".join(f"{c[0]}={c[1]}" for c in q.conds)[:400])
+                elif locks.count("lock_source") != locks.count("unlock_source") and not mapper_reset:
+                    chk.violation("C19.R6", label, f"source-lock-unbalanced:{kind}-path",
+                                  f"{label}: a path locks the source position {locks.count('lock_source')} time(s) and unlocks it {locks.count('unlock_source')} time(s)", where)
+                else:
+                    chk.ok("C19.R6", f"{label}#{kind}#{n_paths}", f"{len(ins)} insert(s)/{len(rem)} remove(s), {locks.count('lock_source')} lock(s)/{locks.count('unlock_source')} unlock(s)")
+    if ctx_clear is None:
+        chk.undecided_("C19.R6", "Context::clear", "function not found in the sources")
